@@ -291,5 +291,31 @@ def rule_o6(repo):
     return res
 
 
+def rule_o7(repo):
+    """Infeasibility is signalled by the solver's own exceptions (UNSATException, AssertLowerException,
+    AssertUpperException).  A handler that turns an exception into "this branch has no solution" must name them: a
+    bare `except:` (or `except Exception`) also catches a KeyError or AssertionError raised by a defect, and the
+    defect then changes the verdict instead of surfacing."""
+    res = RuleResult('C16.O7', 'a handler that turns an exception into a verdict names the infeasibility exceptions of the solver', floor=2)
+    for rel in FILES:
+        m = repo.module(rel)
+        own = {c for c in m.classes if c.endswith('Exception')}
+        for f in m.all_funcs:
+            for t in [n for n in walk_no_nested(f.node, include_root=False) if isinstance(n, ast.Try)]:
+                for h in t.handlers:
+                    names = []
+                    if h.type is not None:
+                        names = [src(x, 40) for x in (h.type.elts if isinstance(h.type, ast.Tuple) else [h.type])]
+                    re_raises = any(isinstance(x, ast.Raise) and x.exc is None for x in ast.walk(h))
+                    broad = h.type is None or any(nm in ('Exception', 'BaseException') for nm in names)
+                    ok = (not broad) or re_raises
+                    res.add('%s :: %s :: handler@%s' % (rel, f.qualname, ','.join(names) or 'bare'), ok,
+                            'names %s' % ', '.join(names) if ok and names else ('re-raises' if ok else
+                            'line %d catches %s and goes on: an internal error (KeyError while asserting a bound) is taken for an infeasible branch - '
+                            '2x >= 5 was answered "no integer solution"' % (h.lineno, 'everything' if h.type is None else ', '.join(names))),
+                            '%s:%d' % (rel, h.lineno))
+    return res
+
+
 def rules(repo):
-    return [rule_o1(repo), rule_o2(repo), rule_o3(repo), rule_o4(repo), rule_o5(repo), rule_o6(repo)]
+    return [rule_o1(repo), rule_o2(repo), rule_o3(repo), rule_o4(repo), rule_o5(repo), rule_o6(repo), rule_o7(repo)]
